@@ -177,22 +177,23 @@ def enable_reprlib_c2():
 def c2packet_to_record(c2packet: C2Packet) -> Record:
     """Convert `c2packet` to a flow.record."""
     fields = [("bytes", "raw_http")]
-    kv = c2packet.__dict__
-    for field in c2packet._type.fields:
-        ftype = str(field.type)
+    kv = {}
+    for field in type(c2packet).__fields__:
+        ftype = field.type.__name__
+        kv[field.name] = getattr(c2packet, field.name)
         if ftype.startswith("char"):
             ftype = "bytes"
         elif ftype == "uint8":
             ftype = "varint"
         elif ftype in ("BeaconCommand", "BeaconCallback", "BeaconMetadata"):
             ftype = "string"
-            kv[field.name] = kv[field.name].name
+            kv[field.name] = kv[field.name].name or str(int(kv[field.name]))
         elif field.name == "epoch":
             ftype = "datetime"
         elif field.name == "ip":
             ftype = "net.ipaddress"
         fields.append((ftype, field.name))
-    PacketDescriptor = RecordDescriptor(f"Beacon/{c2packet._type.name}", fields)
+    PacketDescriptor = RecordDescriptor(f"Beacon/{type(c2packet).__name__}", fields)
     return PacketDescriptor(**kv)
 
 
